@@ -21,7 +21,7 @@
    functions. *)
 From Soy Require Import Model.Bytes Model.Num Model.Values Model.Outcome Model.Ast Model.Interp
   Model.Escape Model.Token Model.ExprParser Model.ExprTrans Spec.Expr Spec.ExprSyntax Generated.Tables
-  Proofs.EvalProofs Proofs.EvalFuncProofs Proofs.EvalMainProofs Proofs.ExprParserRules Proofs.ExprParserProofs Proofs.EvalSyntaxProofs.
+  Proofs.EvalProofs Proofs.EvalFuncProofs Proofs.EvalMainProofs Proofs.ExprParserRules Proofs.ExprParserProofs Proofs.EvalSyntaxProofs Proofs.EvalTotalProofs.
 Open Scope N_scope.
 
 (* ---- the evaluator ---- *)
@@ -45,6 +45,14 @@ Theorem C01_eval_impl_spec : forall G ij cf fuel e st,
      exists msg st', walk cf fuel (to_node G e) st = (Err msg, st') /\ frame_eq st st').
 Proof. exact eval_impl_spec. Qed.
 Print Assumptions C01_eval_impl_spec.
+
+(* ... and these are all the Spec's outcomes but one: eval_spec yields a value, no value, or
+   OutOfModel (never Crash / Diverge / OutOfFuel), so OutOfModel is exactly what the theorem leaves out *)
+Theorem C01_spec_outcomes : forall G env ij e n,
+  (exists v n', eval_spec G env ij e n = Ok (v, n')) \/ (exists m, eval_spec G env ij e n = Err m) \/
+  eval_spec G env ij e n = OutOfModel.
+Proof. exact eval_spec_trichotomy. Qed.
+Print Assumptions C01_spec_outcomes.
 
 (* the built-in functions alone: apply_func (funcs.go) against their documented meaning, for every
    function and EVERY argument list (any length, any kinds) *)
